@@ -159,7 +159,11 @@ def interrupted_emission(chk, rng):
             p = ptera.probing("f > a", env=mod.__dict__, overridable=True)
             if boom_first:
                 p.subscribe(boom)
-            p.override(lambda data: 1000 if data["a"] > limit else ABSENT)
+            if rng.random() < 0.5:
+                p.override(lambda data: 1000 if data["a"] > limit else ABSENT)
+            else:
+                # the same conditional override as a filtered stream: it declines by not reaching the end of the pipe
+                p.filter(lambda data: data["a"] > limit).override(1000)
             if not boom_first:
                 p.subscribe(boom)
             with p:
